@@ -723,6 +723,13 @@ class Flow:
         for e in self.events[before:]:
             if e.node is inner and e.kind == 'call':
                 e.tried = True
+            elif e.kind == 'call' and len(e.stack) == len(stack) + 1 and e.fn.body is not None:
+                # the inner call was inlined: a call that IS the value returned by that helper propagates through this `?` too
+                t = e.fn.body
+                while isinstance(t, dict) and t.get('k') == 'Block':
+                    t = t.get('e')
+                if t is e.node:
+                    e.tried = True
         self.events.append(Event('try', n, fr.fn, ctx, stack, val=v, callee=callee(inner) if inner.get('k') in ('Call', 'MCall') else None))
         return v
 
